@@ -251,17 +251,17 @@ Qed.
 
 (* the answers and effects of end [side]'s operations do not depend on whether the other end is closed *)
 Definition flip_other_closed (p : dpipe) (side : Z) : dpipe :=
-  if side =? 0 then {| ch0 := ch0 p; ch1 := ch1 p; dclosed0 := dclosed0 p; dclosed1 := negb (dclosed1 p) |}
-  else {| ch0 := ch0 p; ch1 := ch1 p; dclosed0 := negb (dclosed0 p); dclosed1 := dclosed1 p |}.
+  if side =? 0 then {| ch0 := ch0 p; ch1 := ch1 p; dclosed0 := dclosed0 p; dclosed1 := negb (dclosed1 p); wexp0 := wexp0 p; wexp1 := wexp1 p |}
+  else {| ch0 := ch0 p; ch1 := ch1 p; dclosed0 := negb (dclosed0 p); dclosed1 := dclosed1 p; wexp0 := wexp0 p; wexp1 := wexp1 p |}.
 
-Definition op_side (o : dop) : Z := match o with DWrite s _ => s | DRead s _ => s | DClose s => s end.
+Definition op_side (o : dop) : Z := match o with DWrite s _ => s | DRead s _ => s | DClose s => s | DSetWD s _ => s end.
 
 Lemma dp_close_independent p o :
   let side := dirn (op_side o) in
   snd (dp_step (flip_other_closed p side) o) = snd (dp_step p o) /\
   fst (dp_step (flip_other_closed p side) o) = flip_other_closed (fst (dp_step p o)) side.
 Proof.
-  destruct o as [s m|s k|s]; simpl; unfold dirn, flip_other_closed;
+  destruct o as [s m|s k|s|s e]; simpl; unfold dirn, flip_other_closed;
     destruct (s =? 0) eqn:E; simpl; rewrite ?E; simpl;
     repeat match goal with
            | |- context[if ?c then _ else _] => destruct c eqn:?; simpl
@@ -271,21 +271,21 @@ Qed.
 
 (* writing a batch on one end and reading it on the other: same messages, same order, each cut
    to the reader's slice *)
-Lemma dp_fifo ms : forall p k, dclosed0 p = false -> dclosed1 p = false -> ch1 p = [] ->
+Lemma dp_fifo ms : forall p k, dclosed0 p = false -> dclosed1 p = false -> wexp0 p = false -> ch1 p = [] ->
   zlen ms <= dp_cap ->
   dp_run p (map (DWrite 0) ms ++ map (fun _ => DRead 1 k) ms) =
   map (fun m => [zlen m; 0]) ms ++ map (fun m => 0 :: zlen (zfirstn k m) :: zfirstn k m) ms.
 Proof.
-  intros p k H0 H1 Hc Hcap.
-  assert (W : forall ms p, dclosed0 p = false -> zlen (ch1 p) + zlen ms <= dp_cap -> forall rest,
+  intros p k H0 H1 Hw Hc Hcap.
+  assert (W : forall ms p, dclosed0 p = false -> wexp0 p = false -> zlen (ch1 p) + zlen ms <= dp_cap -> forall rest,
             dp_run p (map (DWrite 0) ms ++ rest) =
             map (fun m => [zlen m; 0]) ms ++
-            dp_run {| ch0 := ch0 p; ch1 := ch1 p ++ ms; dclosed0 := dclosed0 p; dclosed1 := dclosed1 p |} rest).
-  { clear. induction ms as [|m ms IH]; intros p H0 Hcap rest.
+            dp_run {| ch0 := ch0 p; ch1 := ch1 p ++ ms; dclosed0 := dclosed0 p; dclosed1 := dclosed1 p; wexp0 := wexp0 p; wexp1 := wexp1 p |} rest).
+  { clear. induction ms as [|m ms IH]; intros p H0 Hw Hcap rest.
     - simpl. rewrite app_nil_r. destruct p; reflexivity.
-    - simpl. rewrite H0. rewrite zlen_cons in Hcap. pose proof (zlen_nonneg ms).
+    - simpl. rewrite H0, Hw. rewrite zlen_cons in Hcap. pose proof (zlen_nonneg ms).
       destruct (zlen (ch1 p) >=? dp_cap) eqn:E; [lia|]. f_equal.
-      rewrite IH; cbn [dclosed0 dclosed1 ch0 ch1]; try assumption; try reflexivity.
+      rewrite IH; cbn [dclosed0 dclosed1 wexp0 wexp1 ch0 ch1]; try assumption; try reflexivity.
       + rewrite <- app_assoc. reflexivity.
       + rewrite zlen_app, zlen_cons, zlen_nil. lia. }
   assert (R : forall ms p, dclosed1 p = false -> forall tl, ch1 p = ms ++ tl ->
@@ -294,4 +294,15 @@ Proof.
     simpl. rewrite H1, Hq. simpl. f_equal. apply (fun p => IH p) with (tl := tl); reflexivity. }
   rewrite W by (rewrite ?Hc, ?zlen_nil; assumption || lia). f_equal.
   apply R with (tl := []); simpl; [exact H1|]. rewrite Hc, app_nil_r. reflexivity.
+Qed.
+
+(* a write that fails because its end's write deadline has passed discards what that end had queued for the peer (as the code
+   does) and nothing else: the other direction, both closed flags and the deadlines stay as they are *)
+Lemma dp_write_timeout_local p side m :
+  (if side =? 0 then dclosed0 p else dclosed1 p) = false -> (if side =? 0 then wexp0 p else wexp1 p) = true ->
+  snd (dp_step p (DWrite side m)) = [0; 4] /\
+  (if side =? 0 then ch0 else ch1) (fst (dp_step p (DWrite side m))) = (if side =? 0 then ch0 else ch1) p /\
+  dclosed0 (fst (dp_step p (DWrite side m))) = dclosed0 p /\ dclosed1 (fst (dp_step p (DWrite side m))) = dclosed1 p.
+Proof.
+  intros Hc Hw. unfold dp_step. rewrite Hc, Hw. destruct (side =? 0); simpl; auto.
 Qed.
